@@ -455,6 +455,7 @@ func (proj *Project) saveTargetInfo(label *label.Label, info targetInfo) error {
 		return err
 	}
 	tempName := f.Name()
+	verifPoint("saveTargetInfo.created", label.String())
 
 	if err = json.NewEncoder(f).Encode(info); err != nil {
 		return err
@@ -462,7 +463,9 @@ func (proj *Project) saveTargetInfo(label *label.Label, info targetInfo) error {
 	if err = f.Close(); err != nil {
 		return err
 	}
+	verifPoint("saveTargetInfo.written", label.String())
 
+	defer func() { verifPoint("saveTargetInfo.renamed", label.String()) }()
 	return os.Rename(tempName, path)
 }
 
